@@ -1,4 +1,5 @@
 import SpecVerif.Proofs.Lemmas.LinPred
+import SpecVerif.Proofs.Lemmas.LpcLsf
 import Mathlib.Algebra.Star.Rat
 import Mathlib.Algebra.BigOperators.Group.List.Basic
 /-
@@ -10,6 +11,21 @@ import Mathlib.Algebra.BigOperators.Group.List.Basic
   an involution (`ℝ` with trivial `star`, `ℂ` with conjugation).  Coefficient lists never carry the
   leading 1 of the prediction polynomial.  The domain condition "reflection coefficient of modulus
   `≠ 1`" is stated as `1 - k * star k ≠ 0` (implied by `|k| < 1`).
+
+  The clause "polynomial ↔ line spectral frequencies are inverse" is PROVED in its algebraic form in
+  the last section (helper lemmas in `Proofs/Lemmas/LpcLsf.lean`, namespace `SpecVerif.LpcL`):
+  `polyMul` (`numpy.convolve`) is multiplicative under evaluation and `polyFromRoots` (`numpy.poly`) is
+  the product of the linear factors; the two polynomials `P1 = a1 - reverse a1`, `Q1 = a1 + reverse a1`
+  of `poly2lsf` are antisymmetric / symmetric, average to `a1 = a ++ [0]`, and have the fixed roots
+  `±1` that `poly2lsf` deconvolves away and `lsf2poly` multiplies back; `lsfRecombine` (the synthesis
+  step of `lsf2poly`) fed with any root lists of the deflated polynomials returns `a`
+  (`lsf_roundtrip_algebra`); that the deflated polynomials exist, i.e. `deconvolve` leaves zero
+  remainder, is proved by synthetic division (`lsf_deflation_exists`).  The round trip is therefore
+  relative only to the contract of `numpy.roots` / `numpy.poly` (a monic polynomial is the product of
+  its linear factors); the numerical root finding, `angle`, and the ordering / interlacing of the
+  line spectral frequencies are NOT modelled and not proved.  Polynomials are coefficient lists,
+  highest power first, *with* the leading 1 in that section
+  (`LpcL.polyEval p z = Σ_i p_i z^{len p - 1 - i}`), over any field `F` (no involution needed).
 -/
 namespace SpecVerif.C11
 open SpecVerif
@@ -263,5 +279,175 @@ theorem rc2is_mem (k : ℝ) : -1 ≤ rc2is k ∧ rc2is k ≤ 1 := by
   constructor
   · rw [le_div_iff₀ (by positivity)]; linarith
   · rw [div_le_iff₀ (by positivity)]; linarith
+
+/-! ### prediction polynomial ↔ line spectral frequencies: the algebra of `poly2lsf` / `lsf2poly` -/
+
+section Lsf
+open SpecVerif.LpcL
+variable {F : Type} [Field F]
+
+/-- `numpy.convolve` of two non-empty coefficient lists has `len p + len q - 1` coefficients, entry
+`n` is the convolution sum, and **evaluation is multiplicative**:
+`(p * q)(z) = p(z) · q(z)` with `p(z) = Σ_i p_i z^{len p - 1 - i}` (highest power first) -/
+theorem polyMul_eval (p q : List F) (hp : p ≠ []) (hq : q ≠ []) (z : F) :
+    (polyMul p q).length = p.length + q.length - 1
+    ∧ (∀ n, n < p.length + q.length - 1 →
+        nth (polyMul p q) n = ∑ i ∈ Finset.range (n + 1), nth p i * nth q (n - i))
+    ∧ polyEval (polyMul p q) z = polyEval p z * polyEval q z :=
+  ⟨polyMul_length p q hp hq, nth_polyMul p q hp hq, LpcL.polyMul_eval p q hp hq z⟩
+
+/-- **`numpy.poly`**: the polynomial built from a root list has `len rs + 1` coefficients and is the
+product of its linear factors, `polyFromRoots rs (z) = ∏_{r ∈ rs} (z - r)`; in particular every
+listed root is a root -/
+theorem polyFromRoots_eval (rs : List F) (z : F) :
+    (polyFromRoots rs).length = rs.length + 1
+    ∧ polyEval (polyFromRoots rs) z = (rs.map (fun r => z - r)).prod
+    ∧ (z ∈ rs → polyEval (polyFromRoots rs) z = 0) := by
+  refine ⟨polyFromRoots_length rs, LpcL.polyFromRoots_eval rs z, ?_⟩
+  intro hz
+  rw [LpcL.polyFromRoots_eval rs z]
+  exact List.prod_eq_zero (List.mem_map.mpr ⟨z, hz, sub_self z⟩)
+
+/-- **the sum and difference polynomials of `poly2lsf`**: with `a1 = a ++ [0]` (`a = [1, a_1..a_p]`),
+`P1 = a1 - reverse a1` and `Q1 = a1 + reverse a1` have `p + 2` coefficients, `(P1 + Q1)/2 = a1`
+entry by entry, `P1` is antisymmetric and `Q1` symmetric -/
+theorem lsfSplit_sum (h2 : (2 : F) ≠ 0) (a : List F) :
+    (lsfSplit a).1.length = a.length + 1 ∧ (lsfSplit a).2.length = a.length + 1
+    ∧ (∀ i, (nth (lsfSplit a).1 i + nth (lsfSplit a).2 i) / 2 = nth (a ++ [0]) i)
+    ∧ (∀ i, i ≤ a.length → nth (lsfSplit a).1 (a.length - i) = -nth (lsfSplit a).1 i)
+    ∧ (∀ i, i ≤ a.length → nth (lsfSplit a).2 (a.length - i) = nth (lsfSplit a).2 i) :=
+  ⟨(lsfSplit_length a).1, (lsfSplit_length a).2, lsfSplit_half_sum h2 a, lsfSplit_fst_antisymm a,
+    lsfSplit_snd_symm a⟩
+
+/-- **the fixed roots** removed by `deconvolve` in `poly2lsf` and re-inserted by `lsf2poly`: the
+difference polynomial `P1` always vanishes at `z = 1`; for odd order `p` it also vanishes at `z = -1`
+(factor `[1, 0, -1]`), for even `p` the sum polynomial `Q1` vanishes at `z = -1` (factors `[1, -1]`
+and `[1, 1]`) -/
+theorem lsfSplit_fixed_roots (a : List F) (p : ℕ) (ha : a.length = p + 1) :
+    polyEval (lsfSplit a).1 1 = 0
+    ∧ (p % 2 = 1 → polyEval (lsfSplit a).1 (-1) = 0)
+    ∧ (p % 2 = 0 → polyEval (lsfSplit a).2 (-1) = 0) :=
+  ⟨lsfSplit_fst_root_one a,
+    fun hp => lsfSplit_fst_root_neg_one a (by omega),
+    fun hp => lsfSplit_snd_root_neg_one a (by omega)⟩
+
+/-- the three fixed factors as polynomials: `[1, -1] = z - 1`, `[1, 1] = z + 1`,
+`[1, 0, -1] = z² - 1`, so a deflated polynomial `P` with `P * f = P1` satisfies
+`P1(z) = P(z) · f(z)` -/
+theorem lsf_fixed_factor_eval (z : F) :
+    polyEval ([1, -1] : List F) z = z - 1 ∧ polyEval ([1, 1] : List F) z = z + 1
+    ∧ polyEval ([1, 0, -1] : List F) z = z ^ 2 - 1 := by
+  refine ⟨polyEval_linear 1 z, ?_, ?_⟩
+  · simp [polyEval, Finset.sum_range_succ, nth]
+  · simp [polyEval, Finset.sum_range_succ, nth]
+    ring
+
+/-- **`lsf2poly ∘ poly2lsf = id`, algebraic form**: let `(P1, Q1) = lsfSplit a` for a prediction
+polynomial `a` of order `p` (`len a = p + 1`), let `P`, `Q` be the deflated polynomials that
+`deconvolve` returns with zero remainder (`P * [1,0,-1] = P1`, `Q * [1] = Q1` for odd `p`;
+`P * [1,-1] = P1`, `Q * [1,1] = Q1` for even `p`), and let `rP`, `rQ` be *any* root lists with
+`numpy.poly rP = P`, `numpy.poly rQ = Q` (the contract of `numpy.roots`).  Then the synthesis step of
+`lsf2poly` returns `a`, and there are `2p` roots in total (`p` conjugate pairs = `p` line spectral
+frequencies). -/
+theorem lsf_roundtrip_algebra (h2 : (2 : F) ≠ 0) (a : List F) (p : ℕ) (ha : a.length = p + 1)
+    (P Q rP rQ : List F)
+    (hP : polyMul P (if p % 2 = 1 then [1, 0, -1] else [1, -1]) = (lsfSplit a).1)
+    (hQ : polyMul Q (if p % 2 = 1 then [1] else [1, 1]) = (lsfSplit a).2)
+    (hrP : polyFromRoots rP = P) (hrQ : polyFromRoots rQ = Q) :
+    lsfRecombine rQ rP p = a ∧ rP.length + rQ.length = 2 * p := by
+  have hPne : P ≠ [] := by
+    intro h
+    have := polyFromRoots_length rP
+    rw [hrP, h] at this
+    simp at this
+  have hQne : Q ≠ [] := by
+    intro h
+    have := polyFromRoots_length rQ
+    rw [hrQ, h] at this
+    simp at this
+  have hlP : P.length = rP.length + 1 := by rw [← hrP]; exact polyFromRoots_length rP
+  have hlQ : Q.length = rQ.length + 1 := by rw [← hrQ]; exact polyFromRoots_length rQ
+  have hl1 := (lsfSplit_length a).1
+  have hl2 := (lsfSplit_length a).2
+  by_cases hodd : p % 2 = 1
+  · rw [if_pos hodd] at hP hQ
+    rw [polyMul_one] at hQ
+    constructor
+    · unfold lsfRecombine
+      simp only [hrP, hrQ, if_pos hodd, hP, hQ]
+      exact recombine_lsfSplit h2 a
+    · have h1 := polyMul_length P [1, 0, -1] hPne (by simp)
+      rw [hP, hl1] at h1
+      rw [hQ] at hlQ
+      simp only [List.length_cons, List.length_nil] at h1
+      omega
+  · rw [if_neg hodd] at hP hQ
+    constructor
+    · unfold lsfRecombine
+      simp only [hrP, hrQ, if_neg hodd, hP, hQ]
+      exact recombine_lsfSplit h2 a
+    · have h1 := polyMul_length P [1, -1] hPne (by simp)
+      have h3 := polyMul_length Q [1, 1] hQne (by simp)
+      rw [hP, hl1] at h1
+      rw [hQ, hl2] at h3
+      simp only [List.length_cons, List.length_nil] at h1 h3
+      omega
+
+/-- **`deconvolve` leaves zero remainder**: for every polynomial `a` of order `p` (`len a = p + 1`,
+`2 ≠ 0`) the deflated polynomials assumed by `lsf_roundtrip_algebra` exist — `P1` is divisible by
+`[1, 0, -1]` (odd `p`) resp. `[1, -1]` (even `p`) and `Q1` by `[1]` resp. `[1, 1]` (synthetic division
+by the fixed roots `±1`) — and the quotients keep the leading coefficient of `a` (they are monic when
+`a[0] = 1`, as the contract `numpy.poly(numpy.roots(P)) = P` requires). -/
+theorem lsf_deflation_exists (h2 : (2 : F) ≠ 0) (a : List F) (p : ℕ) (ha : a.length = p + 1) :
+    ∃ P Q : List F,
+      polyMul P (if p % 2 = 1 then [1, 0, -1] else [1, -1]) = (lsfSplit a).1
+      ∧ polyMul Q (if p % 2 = 1 then [1] else [1, 1]) = (lsfSplit a).2
+      ∧ nth P 0 = nth a 0 ∧ nth Q 0 = nth a 0 := by
+  have hane : a ≠ [] := by intro h; rw [h] at ha; simp at ha
+  obtain ⟨hlead1, hlead2⟩ := lsfSplit_lead a hane
+  have hl1 := (lsfSplit_length a).1
+  have hl2 := (lsfSplit_length a).2
+  obtain ⟨P', hP'len, hP'mul, hP'0⟩ :=
+    exists_polyMul_linear (lsfSplit a).1 (by omega) 1 (lsfSplit_fst_root_one a)
+  by_cases hodd : p % 2 = 1
+  · simp only [if_pos hodd]
+    have hP'ne : P' ≠ [] := by intro h; rw [h] at hP'len; simp at hP'len; omega
+    have hroot : polyEval P' (-1) = 0 := by
+      have h := lsfSplit_fst_root_neg_one a (by omega)
+      rw [← hP'mul, LpcL.polyMul_eval P' [1, -1] hP'ne (by simp), polyEval_linear] at h
+      have hne : (-1 - 1 : F) ≠ 0 := by
+        have : (-1 - 1 : F) = -2 := by ring
+        rw [this]; exact neg_ne_zero.mpr h2
+      exact (mul_eq_zero.mp h).resolve_right hne
+    obtain ⟨P, hPlen, hPmul, hP0⟩ := exists_polyMul_linear P' (by omega) (-1) hroot
+    rw [neg_neg] at hPmul
+    have hPne : P ≠ [] := by intro h; rw [h] at hPlen; simp at hPlen; omega
+    refine ⟨P, (lsfSplit a).2, ?_, polyMul_one _, ?_, hlead2⟩
+    · rw [← polyMul_linear_pair P hPne, hPmul, hP'mul]
+    · rw [hP0, hP'0, hlead1]
+  · simp only [if_neg hodd]
+    obtain ⟨Q, _, hQmul, hQ0⟩ := exists_polyMul_linear (lsfSplit a).2 (by omega) (-1)
+      (lsfSplit_snd_root_neg_one a (by omega))
+    rw [neg_neg] at hQmul
+    exact ⟨P', Q, hP'mul, hQmul, by rw [hP'0, hlead1], by rw [hQ0, hlead2]⟩
+
+/-- non-vacuity of `lsf_roundtrip_algebra` (odd order): `a = [1, 5/4]` over `ℚ` (`p = 1`) has
+`P1 = [1, 0, -1]`, `Q1 = [1, 5/2, 1] = (z + 2)(z + 1/2)`; the deflated `P = [1]` has no roots, and
+the recombination returns `a` -/
+example : lsfSplit ([1, 5 / 4] : List ℚ) = ([1, 0, -1], [1, 5 / 2, 1])
+    ∧ polyMul (polyFromRoots ([] : List ℚ)) [1, 0, -1] = [1, 0, -1]
+    ∧ polyFromRoots ([-2, -1 / 2] : List ℚ) = [1, 5 / 2, 1]
+    ∧ lsfRecombine ([-2, -1 / 2] : List ℚ) [] 1 = [1, 5 / 4] := by
+  decide +kernel
+
+/-- non-vacuity (even order): `a = [1, 0, 1/4]` over `ℚ` (`p = 2`); the deflated polynomials have no
+rational roots, so only the split and the fixed factors are exhibited:
+`P1 = [1, -1/4, 1/4, -1] = [1, 3/4, 1] * [1, -1]`, `Q1 = [1, 1/4, 1/4, 1] = [1, -3/4, 1] * [1, 1]` -/
+example : lsfSplit ([1, 0, 1 / 4] : List ℚ) = ([1, -1 / 4, 1 / 4, -1], [1, 1 / 4, 1 / 4, 1])
+    ∧ polyMul ([1, 3 / 4, 1] : List ℚ) [1, -1] = [1, -1 / 4, 1 / 4, -1]
+    ∧ polyMul ([1, -3 / 4, 1] : List ℚ) [1, 1] = [1, 1 / 4, 1 / 4, 1] := by
+  decide +kernel
+
+end Lsf
 
 end SpecVerif.C11
